@@ -69,6 +69,10 @@ def perform(a: Dict[str, Any], w, rng, rec, tg) -> List[Dict[str, Any]]:
             except Exception as ex:
                 raised = ex
                 if not (sub.get("may_raise") or sub.get("must_raise")):
+                    if a.get("usable_prop"):
+                        out.append({"prop": a["usable_prop"], "clause": "valid-continuation-works", "ok": False,
+                                    "detail": f"step {sub['kind']} on {sub.get('targets')} raised {type(ex).__name__}: {str(ex)[:160]}", "method": "seq:" + sub["kind"]})
+                        return out
                     raise
             if sub.get("must_raise"):
                 prop = sub.get("raise_prop", "C05")
@@ -225,6 +229,18 @@ def invalid_request(a, w, rng, rec, tg):
             result = call("apply_operation", op)
         elif what == "wrong-kind-of-subsystem":
             op = Operation(PolarizationOperationType.X) if type(x).__name__ != "Polarization" else Operation(FockOperationType.Creation)
+            result = call("apply_operation", op)
+        elif what == "wrong-kind-with-used-operation":
+            # the Operation object served a legitimate request before (on a scratch subsystem outside the world), so it carries
+            # cached dimensions / operator of the same size as the wrongly addressed subsystem
+            from . import harness
+            L = W.lib()
+            if type(x).__name__ != "Polarization":
+                op, scratch = Operation(PolarizationOperationType.X), L.Polarization()
+            else:
+                op, scratch = Operation(FockOperationType.Creation), L.Fock()
+            with harness.unchecked():
+                scratch.apply_operation(op)
             result = call("apply_operation", op)
         elif what == "subsystem-outside-the-container":
             foreign = w.objs[a["foreign"]]
